@@ -41,6 +41,9 @@ class GridHarness(Harness):
     def build(cls, L, cfg):
         g = L.mods['mapproxy.grid']
         G = common.make_grid(g, cfg['grid'], cfg.get('seed', 0))
+        # the factors the configuration asks for (documented defaults 1.15 / 4.0), not the attributes of the built grid
+        G._cfg_stretch_factor = common.configured(cfg['grid'], 'stretch_factor', 1.15, cfg.get('seed', 0))
+        G._cfg_max_shrink_factor = common.configured(cfg['grid'], 'max_shrink_factor', 4.0, cfg.get('seed', 0))
         return dict(g=g, G=G)
 
     @classmethod
@@ -247,7 +250,7 @@ class ClosestLevel(GridHarness):
     def reference(G, r):
         R = list(G.resolutions)
         n = len(R)
-        sf = G.stretch_factor
+        sf = getattr(G, '_cfg_stretch_factor', G.stretch_factor)
         # thresholds: one explicit transition per consecutive level pair
         thr = {}
         for t in (G.threshold_res or []):
@@ -303,7 +306,7 @@ class AffectedLevel(GridHarness):
         w, h = q[2] - q[0], q[3] - q[1]
         rx, ry = w / size[0], h / size[1]
         res = ITE(rx < ry, rx, ry)
-        too_coarse = res > G.resolutions[0] * G.max_shrink_factor
+        too_coarse = res > G.resolutions[0] * getattr(G, '_cfg_max_shrink_factor', G.max_shrink_factor)
         try:
             bb, level = G.get_affected_bbox_and_level(q, size)
         except g.NoTiles:
@@ -447,6 +450,7 @@ def obligations(tier, seed):
     else:
         for g2 in ('thresh_ll', 'close_ll'):
             specs.append(spec(MOD, 'ClosestLevel', 'closest-level/%s' % g2, cfg=dict(grid=g2, seed=seed), cost=5))
+        specs.append(spec(MOD, 'AffectedLevel', 'affected-level/close_ll/256x200', cfg=dict(grid='close_ll', seed=seed, size=(256, 200)), cost=10))
     # reachability twins (one per harness) and canaries
     for hname, cfg in CANARY_CFG.items():
         specs.append(spec(MOD, hname, 'twin/%s' % hname, kind='witness', cfg=dict(cfg, seed=seed)))
